@@ -19,7 +19,7 @@ import re._parser as P
 import z3
 
 from symx import core
-from symx.core import SBool, SInt, Unsupported, b_and, b_or, b_not
+from symx.core import SBool, SInt, Unsupported, b_and, b_or, b_not, b_iff
 from symx.driver import Family
 from symx.instrument import load_instrumented
 from symx.sstr import SStr, CP, new_str, new_int, lift, zt, cp_in_ivs, ivs_of_chars, table, join
@@ -410,7 +410,28 @@ def spec_match_sym(name, pattern):
 PATS = [None, "", "*", "a", "a*", "*a", "\\*", "a\\*", ".", "a.", "\\", "a\\", "\\a", "**", "*.*"]
 
 
-PSETS = [[None, "a\\*"], [None, "p*"], [None, "a*"], PATS]
+PSETS = [[None, "a\\*"], [None, "p*"], [None, "a*", "b"], PATS]
+
+
+MATCH_PATTERNS = ["a", "*a", "a*", "*", "\\*", "aa", "a\n", "", "a*a", "\\a"]
+
+
+def make_match(eng, n, alphabet):
+    """The real match_with_wildcard (regex built by _create_regex, applied by the compiled pattern's own method) on a symbolic NAME, incl. line breaks."""
+    inv = M["myst_parser.inventory"]
+    name = lift(new_str(eng, "n", n, alphabet=alphabet)) if n else ""
+    psel = new_int(eng, "p", 0, len(MATCH_PATTERNS) - 1)
+    eng.witness_fn = lambda m: {"match_name": eng.eval_model(m, name), "match_pattern": MATCH_PATTERNS[eng.eval_model(m, psel)]}
+
+    def body():
+        pat = MATCH_PATTERNS[eng.concretize_int(psel)]
+        got = inv.match_with_wildcard(name, pat)
+        exp = spec_match_sym(name, pat)
+        eng.require(b_iff(got, exp) if not (isinstance(got, bool) and isinstance(exp, bool)) else got == exp, "match-with-wildcard", "pattern %r" % pat)
+        eng.note("wild_nontrivial")
+        return "ok"
+
+    return body
 
 
 PSETS_RICH = [[None, "inv"], [None, "*", "c*", "cm", "cm:variable", "p*"], [None, "*", "cache", "variable:cache", "*cache", "v*", "a*"], [None, "*", "a", "\\*"]]
@@ -608,6 +629,9 @@ def families(tier, seed):
     for n in ([5] if q else [6, 7]):
         F.append(Family("W/sigma-N%d" % n, make_wild, "all patterns of exactly %d chars over 'a*\\\\.?' ; names unbounded" % n,
                         args=dict(n=n, alphabet="a*\\.?"), nontrivial="wild_nontrivial", required=False))
+    for n in ([0, 1, 2, 3] if q else [2, 3, 4]):
+        F.append(Family("M/name-N%d" % n, make_match, "match_with_wildcard(name, pattern) for every name of %d chars over 'a*\\n\\\\' and patterns %r (whole-string matching incl. names that end in a line break)" % (n, MATCH_PATTERNS),
+                        args=dict(n=n, alphabet="a*\n\\"), nontrivial=("wild_nontrivial" if n else None), max_forks=40000))
     for nn in ([1, 2] if q else [2, 3]):
         F.append(Family("F/names%d" % nn, make_filter, "2 inventories / 3 domain:type groups / 5 entries, 2 symbolic names of %d chars over 'a*\\\\.b', filter quadruple from %d patterns each" % (nn, len(PATS)),
                         args=dict(nname=nn), nontrivial="filter_nontrivial", required=(nn <= 1 if q else nn <= 2), max_forks=20000))
@@ -643,6 +667,14 @@ def replay(label, witness):
         if got != exp:
             return ("C19/wildcard:%s" % _classify(p, n), "match_with_wildcard(name=%r, pattern=%r) = %r, documented semantics = %r" % (n, p, got, exp))
         return None
+    if "match_name" in witness:
+        n_, p_ = witness["match_name"], witness["match_pattern"]
+        try:
+            got = real.match_with_wildcard(n_, p_)
+        except Exception as e:  # noqa
+            return ("C19/exception:%s" % type(e).__name__, "match_with_wildcard(%r, %r) raised %r" % (n_, p_, e))
+        exp = spec_match(n_, p_)
+        return None if got == exp else ("C19/wildcard:%s" % _classify(p_, n_), "match_with_wildcard(name=%r, pattern=%r) = %r, documented semantics = %r" % (n_, p_, got, exp))
     if "target" in witness:
         from harness import common_render as CR
         import myst_parser.mdit_to_docutils.base as rbase
